@@ -1,12 +1,12 @@
 (* C16 — auto-refresh runs inside timer windows and is never postponed past the limit.
    Property theorems only. Model: models/Timer.v (timeutil/schedule.go function by function, UTC; time zones and DST
    are not modelled), lib/Civil.v (calendar).
+   String level: models/TimerText.v (ParseSchedule and Schedule.String over byte lists).
    NOT proved here (partial, see notes/C16.md): that the day search of Schedule.Next terminates within a stated number
-   of days (the theorems are conditional on `sched_next fuel ... = Some w`), and the parse/format round trip (the
-   parser is not modelled; the round trip and well-formedness are monitored on the implementation). *)
-From Coq Require Import List ZArith Bool.
+   of days (C16_in_window_partial is conditional on `sched_next fuel ... = Some w`). *)
+From Coq Require Import List ZArith Bool String.
 Import ListNotations.
-Require Import V.lib.Civil V.models.Timer V.proofs.TimerProofs.
+Require Import V.lib.Bytes V.lib.Civil V.models.Timer V.proofs.TimerProofs V.models.TimerText V.proofs.TimerTextProofs.
 Open Scope Z_scope.
 
 (* The refresh limit, for ANY schedule functions: whatever windows the schedules' Next return, timeutil.Next's chosen
@@ -72,8 +72,33 @@ Theorem C16_midnight_tail_refuted : exists w t,
 Proof. exact midnight_tail_counterexample. Qed.
 Print Assumptions C16_midnight_tail_refuted.
 
+(* Invalid timers are rejected: whatever ParseSchedule accepts (any byte string) is a non-empty list of schedules, each
+   non-empty and well formed: weekdays 0..6; week positions 0..5 and at most one numbered end unless the span is a
+   single day; clocks within 00:00..23:59 or exactly 24:00; 0 <= split < 2^32 (0 = no `/N`; `/0` is rejected). *)
+Theorem C16_parse_accepts_only_wf : forall (s : bytes) (l : list schedule),
+  parse_schedule s = Some l -> l <> [] /\ Forall (fun sc => sched_ok sc = true) l.
+Proof. exact parse_accepts_only_wf. Qed.
+Print Assumptions C16_parse_accepts_only_wf.
+
+(* Formatting and parsing again yields the same schedule: for EVERY well-formed non-empty schedule s,
+   ParseSchedule (String s) = [s] up to norm_sched, which only resets Spread and Split of clock spans whose end equals
+   their start (String prints those as the bare time; the two fields have no effect on such a span). *)
+Theorem C16_format_parse_roundtrip : forall s : schedule, sched_ok s = true ->
+  parse_schedule (fmt_sched s) = Some [norm_sched s].
+Proof. exact format_parse_roundtrip. Qed.
+Print Assumptions C16_format_parse_roundtrip.
+
+(* ... in particular for every schedule the parser itself produced, from any accepted text *)
+Theorem C16_parsed_roundtrip : forall (text : bytes) (l : list schedule),
+  parse_schedule text = Some l -> Forall (fun s => parse_schedule (fmt_sched s) = Some [norm_sched s]) l.
+Proof. exact parsed_roundtrip. Qed.
+Print Assumptions C16_parsed_roundtrip.
+
 (* non-vacuity: the default refresh timer 00:00~24:00/4 *)
 Example C16_default_timer_example : exists w,
   sched_next 400 (mkSched [] [mkCS (mkClock 0 0) (mkClock 24 0) 4 true]) ex_last (ex_last + 60) = Some w /\
   sched_includes (mkSched [] [mkCS (mkClock 0 0) (mkClock 24 0) 4 true]) (w_start w) = true.
 Proof. exact ex_default_timer. Qed.
+Example C16_parse_example : exists l, parse_schedule (bs "mon-wed,fri,9:00-11:00/2,,mon1,24:00~0:00") = Some l /\
+  map fmt_sched l = [bs "mon-wed,fri,09:00-11:00/2"; bs "mon1,24:00~00:00"].
+Proof. eexists. split; vm_compute; reflexivity. Qed.
